@@ -8,49 +8,7 @@ HERE = os.path.dirname(os.path.dirname(os.path.abspath(__file__)))
 sys.path.insert(0, HERE)
 from vlib import props  # noqa: E402
 
-TEXT = {
-    "C01": ("Per emitted program: every rule function enumerates exactly the join of the flat rule printed above it and pushes exactly its conclusions (T-PLAN); the sub-rules cover every match with something new (T-SEMI); close_until runs every module on canonical, recomputed tables, applies all conclusions and stops only when nothing is new (T-LOOP, T-DELTA, T-DIRTY); all copies of a relation are kept in step by insert/move/canonicalize with exact diagonal guards (T-INS, T-MOVE, T-CANON, T-DIAG); each function has its functionality rule (T-FUNC); no tuple becomes old without having been new (T-AGE). For enumerated flat-shaped rules the printed flat rule is compared with a reference flattening of the source rule (T-FLAT). Decided by a lint over the syntax tree of the generator's output for the shipped theories, /verif/corpus and a seeded sample of 120 enumerated rules (quick); thorough adds the whole enumerated family (2076 rules) and eqlog.eql; T-LOOP also on the generator's template, i.e. for all programs.",
-            "Necessary structural conditions of closedness, not the behaviour. Not decided: that flatten() turns a source rule with nested terms, branch or match into the right flat rules; termination. Oracle: the flat-rule comment and the index family of the emitted struct (trusted naming scheme, fail closed)."),
-    "C02": ("Per emitted program: every premise column is constrained to the right variable (an unconstrained column is a spurious match, T-PLAN), conclusions mention bound variables only, diagonal copies contain exactly the rows satisfying the equalities (T-DIAG, truth table over all set partitions), definitions are applied only when `!is_dirty()` was observed and allocation is reachable in close only through apply_func_defs (T-LOOP).",
-            "Structural soundness conditions only; freeness / isomorphism with a reference chase is value-level and not decided."),
-    "C03": ("Per emitted program: the age discipline semi-naive evaluation relies on: exact cover (T-SEMI); move_new_to_old moves every new row into every old copy and clears every new copy (T-MOVE); canonicalize re-inserts rewritten rows as new (T-CANON); close_until starts by canonicalizing (T-LOOP); inserting a present tuple is a no-op for both ages (T-INS); nothing reaches an old copy without having been new (T-AGE).",
-            "Equality of the two final models is not decided; the D5 defect (inherited tuples enter old copies directly) is a known finding."),
-    "C04": ("Sibling agreement between the code paths that maintain one relation's copies: struct vs new() (T-FAM), insert (T-INS), move_new_to_old (T-MOVE), canonicalize (T-CANON), is_dirty (T-DIRTY), with diagonal guards decided exactly (T-DIAG); public queries root their arguments and cover both ages with correctly permuted rows (T-API).",
-            "Decided per emitted program on code shape; transient duplicates between own/new and inherited/old copies are not decided."),
-    "C05": ("Shape of the generated API: queries canonicalize every argument before the first index access and look at one full index per age; root/are_equal/equate/new_internal/define follow the contract (equate unions the two roots, removes exactly the merged element from both type sets and records it as uprooted; define evaluates first and allocates only in the None arm); insert covers the new family and is a no-op for present rows (T-API, T-INS).",
-            "Per emitted program; the union-find implementation itself (eqlog-runtime/src/unification.rs) is covered by the who-writes rule M-UF."),
-    "C06": ("Allocation clause: new_T_internal is private and called only by new_T and define_f into T; from close_until it is reachable only through apply_func_defs; a theory whose source has no `!` in a then-statement has no routine pushing a definition (T-ALLOC). Dirtiness sources are each cleared once per iteration (T-DIRTY, T-MOVE, T-CANON).",
-            "Termination is a liveness claim over runtime data and is NOT decided; only the structural conditions named here are."),
-    "C07": ("Path-sensitive typestate analysis of the emitted close_until (all paths, loop to fixed point): `true` only right after condition(self) held on canonical, recomputed tables; `false` only right after `!is_dirty()` with all ModelDelta kinds drained; at every return, collected conclusions are either drained or stored back into the model (T-LOOP, T-PENDING). Decided on the `close_until` template inside the generator (string literal of display_close_until_fn, placeholders substituted, parsed as Rust), hence for all programs, and again on the emitted function of every analysed program.",
-            "The template depends on the program only through the list of module calls; that every declared module is called is checked on each emitted program."),
-    "C15": ("Who-may-call: new_<enum>_internal is reachable only through define_<ctor>; new_<enum>(Case) dispatches each variant to its constructor's define; <enum>_cases roots its argument and scans every constructor; no define_ exists for a non-constructor function into an enum type (T-ALLOC, T-ENUM, T-DELTA).",
-            "The compile-time half (rules should_be_obtained_by_ctor / is_given_by_ctor in eqlog.eql) is not decided."),
-    "C16": ("Exact per emitted program: for every family of sub-rules and each of the 2^n new/old labellings of its distinct atoms, exactly one member admits the labelling if some atom is new and none if all are old; ages are those of the index fields actually read (T-PLAN ties the comment to the code). The functionality rule is checked up to the swap of its two atoms.",
-            "Finite enumeration per program; bounded by the analysed programs: shipped theories, corpus, a seeded sample of the enumerated family (quick) or the whole family of 2076 flat-shaped rules with up to 3 premise atoms and 4 variables plus eqlog.eql (thorough)."),
-    "C17": ("Protocol of recompute_model_indices: one topological sort per model type with arguments in the callee's positions; per own/all pair one block that starts from a clone of `own`, walks the sorted morphisms in order, maps the domain's accumulated `all` restriction through both ages of the morphism-application tables and inserts it under the codomain; new and old blocks structurally identical (T-MOR); rules never run on stale `all` copies (T-LOOP); no new-age data flows into an old-age copy (T-AGE, scoped taint).",
-            "D5 is a known finding (old `all` copies are derived from new morphism data). Value-level transitivity is not decided separately (it follows from processing in topological order given C18)."),
-}
-
-TEXT.update({
-    "C08": ("The nine prefix-tree arities are one implementation (S-SIB: token-skeleton equality of every method for arities 2..9); the invariant `no key maps to an empty subtree`, on which is_empty() rests, is kept by every shrinking/storing method (S-PRUNE) and respected by emitted code (T-PRUNE-USE); clones are independent because no container type has interior mutability (M-FREEZE), the unsafe inventory is exactly the two audited raw-pointer dereferences of IterMut (M-UNSAFE), mapping nodes never enter live trees (M-MAPFREE); union/difference callbacks receive (self, other) values in order (M-CBORDER, MIR taint).",
-            "Sortedness and prefix lookups for arities 0..2 are only covered through the map rules of C14. Known finding: get_mut hands out &mut subtrees that emitted code shrinks."),
-    "C09": ("rustc's type checker accepts every emitted module and component (`--emit=metadata`, nothing linked or run) for /verif/corpus in both build modes and the shipped theories (module mode in quick, both in thorough); imports equal exports between module and components, a link-time condition the type checker does not see (T-X); env structs only name fields that exist (T-ENV); ModelDelta has exactly the vectors the rules push to (T-DELTA).",
-            "Bounded by the analysed programs; absence of panics in the lowering passes for programs outside them is not decided. Known finding D10 (member enum `!`)."),
-    "C11": ("On the path that renders a diagnostic (Display of CompileErrorWithContext / SourceDisplay, From<ParseError>, whipe_comments, line table) every panic-capable operation in the reachable call graph (explicit panics, unwrap/expect, str/slice indexing, overflow/bounds asserts) is in an audited table with one reason per entry, one of them under a checked structural precondition (M-PANIC); byte offsets are never computed from str::lines() plus a constant terminator width, and the parsed text is never a re-joined copy of the text diagnostics are rendered against (M-LINES); every syntax-node kind whose location the semantic checks unwrap receives a location in every grammar action that creates such a node (M-LOCS, over the MIR of the lalrpop-generated actions).",
-            "Diagnostic path only: panics and hangs inside parsing, closing the compiler's own model and the semantic passes rest on invariants of that model and are NOT decided."),
-    "C12": ("MIR control-flow analysis of process_file and compile_component_rlib (dominators, must-pass over all paths, so over all crash points): every output mutation (fs::write, rustc, component build) is dominated by the removal of the digest that vouches for it; from every mutation every Ok return passes the digest write; nothing is mutated after it; the up-to-date path mutates nothing; the component digest is written only after rustc succeeded; the skip needs digest match and existing rlib; only these functions touch the file system; stale component files are removed before the directory is enumerated (M-DIGEST).",
-            "Durability (fsync) is not decided (acknowledged in the source); equality of regenerated text with a clean build is C13."),
-    "C13": ("Inventory over every MIR body of the compiler crate: no iteration over hash containers, clocks, thread ids, environment, directory order or pointer-to-integer casts outside an audited table (one named function + reason per entry, with a live positive example) (M-DET); the one parallel section captures only shared references to cell-free data and writes only paths derived from its own item (M-PAR); directory configuration does not reach the emitters or the digest (M-DIRTAINT, MIR taint).",
-            "Assumes determinism of the registry-built model code (eqlog-eqlog prebuilt by crates.io eqlog 0.8.0) the compiler links. Byte equality of two runs is not decided."),
-    "C14": ("Persistence: no interior mutability in any container type (M-FREEZE), unsafe inventory = two audited blocks, no raw-pointer laundering (M-UNSAFE), no mapping nodes in live trees (M-MAPFREE); callbacks in (left, right) order on every path of union/difference (M-CBORDER); `len` maintained wherever `root` is replaced and taken from Node::size for constructed maps (M-LEN); every child assignment in insert/remove_min/remove_existing_node/rotations is followed by a size update on all paths to return and reaches balance; join balances every node it builds; (DELTA, GAMMA) = (3, 2) (M-SIZE, M-BAL).",
-            "That rotations restore the weight-balance invariant (arithmetic over sizes) and agreement with a reference map are NOT decided; these are necessary structural conditions."),
-    "C18": ("Structural necessary conditions of Kahn's algorithm in the MIR of morphism_toposort: Ok/Err are decided by, and lie on opposite sides of, the test whether objects with positive in-degree are left, evaluated after the work loop; every emitted morphism decrements its codomain's in-degree on all paths and nothing else does; increments and emissions are both guarded by the codomain lookup; an object is queued only on the zero side of a comparison of its decremented in-degree with 0 (M-KAHN). morphism_toposort uses the new and the old half of each of its three table pairs through the same operations (MIR taint per parameter through nested closures; combination by chain/or_else is symmetric) (M-SYM); the emitted call passes dom (order 1_0), cod (order 0_1) and object tables in the callee's positions and does not swallow its error (T-MOR).",
-            "That the output is a topological order and that an error is returned iff there is a cycle is algorithmic: only the necessary conditions named here, split-independence (up to the order of equally ranked morphisms) and the interface are decided."),
-    "C19": ("Exact on emitted text for every analysed program: env struct of each rule identical in module, embedded rule module and component; link_name = exported no_mangle name with equal parameter type; imports = exports; embedded rule code = component source; all model code outside rule modules identical between build modes (T-X, syntax-tree equality); in the generator each of these pieces has a single emitter reached by both display_module and display_ram_module (M-EMIT, MIR call graph).",
-            "`Identical observable results` follows from the code being the same; not separately checked."),
-    "C20": ("Inventory claim: the runtime crate calls no hash iteration, clock, thread, environment or pointer-exposing operation in any MIR body (M-DETRT); emitted code names no such facility and its model struct has only ordered/dense field types (T-DET); raw pointers are confined to the audited IterMut blocks and never compared, hashed or exposed (M-UNSAFE); no interior mutability (M-FREEZE).",
-            "In safe Rust without those sources the transcript is a function of the call sequence; nothing further decided."),
-})
+from vlib.texts import TEXT  # noqa: E402
 
 NOT_APPLICABLE = {
     "C10": "The verdict for a program is the least fixed point of ~300 inference rules of eqlog.eql evaluated by registry-built code followed by value-level comparisons; no clause of the `iff` is visible in code shape and not already enforced by the 45 error tests. Static analysis is declined rather than dressed up (DESIGN.md section 7).",
